@@ -237,4 +237,68 @@ theorem Solid.avoid {s s' : St} {k : Key} (hns : ¬ Solid s k) (he : s'.epoch = 
   have : y ≠ k := fun e => hns (e ▸ hy)
   exact ⟨ny, by rw [hn y this]; exact hny, rfl, rfl, rfl, rfl, rfl, fun hv => by rw [he]; exact hv, id⟩
 
+-- ------------------------------------------------------------------ static read sequences (class B)
+
+theorem mem_recordKeys {ks : List Key} : ∀ {acc : List Key} {d : Key},
+    d ∈ recordKeys ks acc ↔ d ∈ acc ∨ d ∈ ks := by
+  induction ks with
+  | nil => intro acc d; simp [recordKeys]
+  | cons k rest ih =>
+    intro acc d
+    have : recordKeys (k :: rest) acc = recordKeys rest (if acc.contains k then acc else acc ++ [k]) := rfl
+    rw [this, ih]
+    by_cases hc : acc.contains k = true
+    · rw [if_pos hc]
+      have hk : k ∈ acc := List.contains_iff_mem.1 hc
+      constructor
+      · rintro (h | h)
+        · exact Or.inl h
+        · exact Or.inr (List.mem_cons_of_mem _ h)
+      · rintro (h | h)
+        · exact Or.inl h
+        · rcases List.mem_cons.1 h with rfl | h
+          · exact Or.inl hk
+          · exact Or.inr h
+    · rw [if_neg hc]
+      rw [List.mem_append, List.mem_singleton, List.mem_cons]
+      constructor
+      · rintro ((h | h) | h)
+        · exact Or.inl h
+        · exact Or.inr (Or.inl h)
+        · exact Or.inr (Or.inr h)
+      · rintro (h | h | h)
+        · exact Or.inl (Or.inl h)
+        · exact Or.inl (Or.inr h)
+        · exact Or.inr h
+
+theorem foldTfc_congr {f g : Key → List Key} {ks : List Key} (h : ∀ d, d ∈ ks → f d = g d) :
+    ∀ acc, foldTfc f ks acc = foldTfc g ks acc := by
+  induction ks with
+  | nil => intro acc; rfl
+  | cons k rest ih =>
+    intro acc
+    have e1 : foldTfc f (k :: rest) acc = foldTfc f rest (Qbice.Engine.unionSorted (f k) acc) := rfl
+    have e2 : foldTfc g (k :: rest) acc = foldTfc g rest (Qbice.Engine.unionSorted (g k) acc) := rfl
+    rw [e1, e2, h k (List.mem_cons_self ..)]
+    exact ih (fun d hd => h d (List.mem_cons_of_mem _ hd)) _
+
+/-- the static facts of a projection survive a state change that keeps the frontier contribution of
+    every firewall / projection node -/
+theorem Inv.pjStat_transfer {p : Program} {s s' : St} (inv : Inv p s) (sp : StaticProj p)
+    (hfront : ∀ d nd, s.nodes d = some nd → nd.kind = .firewall ∨ nd.kind = .projection →
+      front s' d = front s d)
+    {x : Key} {nx : Node} {dx : NodeDef} {ks : List Key} (hx : s.nodes x = some nx)
+    (hpx : p[x]? = some dx) (hkx : nx.kind = .projection) (hst : ProgStatic dx.prog ks) :
+    nx.deps.map (·.1) = recordKeys ks [] ∧ nx.tfc = foldTfc (front s') ks [] := by
+  obtain ⟨h1, h2⟩ := inv.pjStat sp x nx dx ks hx hpx hkx hst
+  refine ⟨h1, ?_⟩
+  rw [h2]
+  apply foldTfc_congr
+  intro d hd
+  have hmem : d ∈ nx.deps.map (·.1) := by rw [h1]; exact mem_recordKeys.2 (Or.inr hd)
+  rw [List.mem_map] at hmem
+  obtain ⟨⟨d', o⟩, hm, rfl⟩ := hmem
+  obtain ⟨_, nd, hnd⟩ := inv.down x nx hx d' o hm
+  exact (hfront d' nd hnd (inv.pjKinds x nx hx hkx d' o nd hm hnd)).symm
+
 end Qbice.CoreFw
